@@ -113,8 +113,12 @@ class IntervalBoundary(BoundaryDomain):
         lb = self.domain.lower_bound(points.join(params))
         ub = self.domain.upper_bound(points.join(params))
         points = points[:, list(self.space.keys())].as_tensor
-        close_to_left = torch.isclose(points[:, None], lb)
-        close_to_right = torch.isclose(points[:, None], ub)
+        # torch.isclose needs equal dtypes: the points may be float64 while the bounds
+        # (numbers or float32 parameters) are float32, or the other way round
+        dtype = torch.promote_types(points.dtype, torch.promote_types(lb.dtype, ub.dtype))
+        points = points[:, None].to(dtype)
+        close_to_left = torch.isclose(points, lb.to(dtype))
+        close_to_right = torch.isclose(points, ub.to(dtype))
         return close_to_left, close_to_right
 
     def sample_random_uniform(
@@ -181,7 +185,8 @@ class IntervalSingleBoundaryPoint(BoundaryDomain):
     def _contains(self, points, params=Points.empty()):
         side = self.side(points.join(params))
         points = points[:, list(self.space.keys())].as_tensor
-        inside = torch.isclose(points[:, None], side)
+        dtype = torch.promote_types(points.dtype, side.dtype)
+        inside = torch.isclose(points[:, None].to(dtype), side.to(dtype))
         return inside.reshape(-1, 1)
 
     def sample_random_uniform(
